@@ -130,7 +130,8 @@ def gen_pil(rng, max_prot=8, max_pep=14):
     prots = base + [("REV__" + b) for b in base if rng.random() < 0.7]
     pil = []
     style = rng.random()
-    near = rng.random() < 0.2      # nearly-equal PEPs (a few 2^-24 apart, relatively): distinct scores closer than 1e-6
+    near = rng.random() < 0.2      # nearly-equal PEPs (a few 2^-24, 2^-36 or 2^-51 apart, relatively): distinct scores closer than 1e-6
+    near_step = 2.0 ** -rng.choice([24, 24, 36, 51])
     for k in range(rng.randint(1, max_pep)):
         decoy = rng.random() < 0.35
         pool = [p for p in prots if p.startswith("REV__") == decoy] or prots
@@ -143,7 +144,7 @@ def gen_pil(rng, max_prot=8, max_pep=14):
         r = rng.random()
         pep = rng.choice([1e-5, 1e-3, 0.004, 0.05, 0.3]) if r < 0.6 else rng.random() ** rng.choice([1, 3, 8])
         if near:
-            pep = rng.choice([1e-3, 0.004]) * (1 + rng.choice([0, 1, 2, 3]) * 2.0 ** -24)
+            pep = rng.choice([1e-3, 0.004]) * (1 + rng.choice([0, 1, 2, 3]) * near_step)
         pil.append([f"PEP{k}K", gens.fr(pep), ps])
     return pil
 
